@@ -35,6 +35,9 @@ CLAIMED = {
  "C03": ("memo-discipline dominance rules over the copier's recursive call-graph component (go/ssa + call graph)",
          "Decides the mechanism that makes copying of cyclic/shared graphs terminate and preserve identity: every pointer dereference or map iteration feeding a descent in the copier's recursive component is dominated in the same function by a memo lookup keyed on that reference whose hit returns and by the memo registration; the interface handler has no reference-crossing descent of its own; no member starts a fresh copier; temporaries whose location is memoised are allocated per iteration.",
          "Not decided: equality of the copied contents; slices that contain themselves through an interface (outside the property's node family). Trusted: reflect.Value.Pointer identity."),
+ "C20": ("pipeline-shape def-use rules + method-set selection depth (declared vs promoted) + reaching-condition truth tables + lock dominance (go/types + go/ssa)",
+         "Decides that transforming source/decoder are translate -> inner(translated type) -> reverse-translate(same transformer) pipelines returning exactly the reverse-translated value and each tested error (wrapped, with a zero value); that the watch arguments handed to a wrapped watcher declare every value-carrying WatchArgs method themselves (not promoted), reverse-translate and forward to the same-named wrapped method; Blank's delegate / refuse-watcher-before-any-write / Done-forwarding predicates and that every access to its state is under its mutex; ReformatDialsTagSource wraps with a dials-tag reformatter.",
+         "Not decided: the values flowing through (C10 covers the transformer's bookkeeping). Trusted: inner sources honour their contracts."),
 }
 
 NOT_YET = {}
